@@ -122,12 +122,18 @@ def prove(module, theorems):
         raise Broken(f"proof:{module}", "\n".join(errs[:20]) or out[-2000:])
     path = os.path.join(LEAN, module.replace(".", "/") + ".lean")
     bad = []
-    for root in ("Drand", "DrandProofs", "Gen"):
+    files = [path]
+    for root in ("Drand", "Gen", os.path.join("DrandProofs", "Lemmas")):
         for dp, _, fs in os.walk(os.path.join(LEAN, root)):
-            for f in fs:
-                if not f.endswith(".lean"):
-                    continue
-                txt = open(os.path.join(dp, f)).read()
+            files += [os.path.join(dp, f) for f in fs if f.endswith(".lean")]
+    # proof modules imported by this one
+    for m in re.findall(r"^import (DrandProofs\.\S+)", open(path).read(), flags=re.M):
+        files.append(os.path.join(LEAN, m.replace(".", "/") + ".lean"))
+    if True:
+        if True:
+            for ff in files:
+                f = os.path.basename(ff)
+                txt = open(ff).read()
                 txt = re.sub(r"/-.*?-/", "", txt, flags=re.S)
                 for i, line in enumerate(txt.splitlines()):
                     line = line.split("--")[0]
@@ -190,8 +196,23 @@ def build_harness():
     return binp
 
 
+_SCRATCH = None
+
+
+def scratch():
+    """per-process scratch directory (tmpfs when available), removed at exit"""
+    global _SCRATCH
+    if _SCRATCH is None:
+        import atexit
+        base = "/dev/shm" if os.path.isdir("/dev/shm") and os.access("/dev/shm", os.W_OK) else BUILD
+        _SCRATCH = tempfile.mkdtemp(prefix="verif_scratch_", dir=base)
+        atexit.register(lambda: shutil.rmtree(_SCRATCH, ignore_errors=True))
+    return _SCRATCH
+
+
 def run_lines(binary, args, lines, timeout=600, env=None):
     inp = "\n".join(lines) + "\n"
+    env = dict(env or os.environ, VERIF_TMP=scratch())
     p = subprocess.run([binary] + args, input=inp, stdout=subprocess.PIPE, stderr=subprocess.PIPE, text=True,
                        timeout=timeout, env=env)
     return p.returncode, p.stdout.splitlines(), p.stderr
